@@ -34,6 +34,16 @@ EXTRA = [
              [Rule('M', S(Str('m'), Asg('p', '=', Ref('P')))),
               Rule('P', S(Str('<'), Asg('n', '=', Ref('INT')), Str('>')), skipws=True), corpus.COMMENT],
              tags=['ws'], skipws=False),
+    # modified rules whose body is a single match
+    corpus.G('single-match-rule-noskipws',
+             [Rule('M', S(Asg('a', '=', Ref('ID')), Ref('Sep'), Asg('b', '=', Ref('ID')))),
+              Rule('Sep', Str(':'), skipws=False)], tags=['ws']),
+    corpus.G('single-match-rule-skipws-under-noskipws',
+             [Rule('M', S(Asg('a', '=', Ref('INT')), Ref('Sep'), Asg('b', '=', Ref('ID')))),
+              Rule('Sep', Str(':'), skipws=True)], tags=['ws'], skipws=False),
+    corpus.G('single-match-rule-ws',
+             [Rule('M', S(Asg('a', '=', Ref('ID')), Ref('Sep'), Asg('b', '=', Ref('ID')))),
+              Rule('Sep', Str(':'), ws='\n')], tags=['ws']),
     corpus.G('global-ws-comment', [Rule('M', S(Str('a'), Asg('xs', '+=', Ref('INT')))), corpus.COMMENT_BLOCK],
              tags=['ws'], ws=' \n'),
 ]
